@@ -70,7 +70,7 @@ def primCall (p : PrimSt) (t : Tid) (op : SOp) : Option PrimSt :=
 def opValid (prim : String) (op : SOp) : Bool :=
   match op with
   | .start _ | .join _ | .dtor _ => true
-  | .destroy => prim == "sig"
+  | .destroy => prim == "sig" || prim == "mon"
   | .lock | .try_ _ | .unlock => prim == "mtx" || prim == "mon"
   | .signal | .trywait => prim == "sem"
   | .wait | .twait _ => prim == "sem" || prim == "sig" || prim == "mon"
